@@ -31,7 +31,7 @@ BOUND = {
     "thorough": "types x 5 decorations x 3 contexts; settings subsets <=4 x 9 column variants; text fragments len<=2 x 17 channels x ref/no-ref; L(5,3) x 3 rotations; 4 containers x catalogue",
 }
 # as-built additions to the bound (kept next to BOUND so that the evidence reports them)
-BOUND = {k: v + "; plus: " + '7 legal namespace prefixes (hyphen, dot, digit, non-ASCII) x 6 declaration spellings (URIs containing an equals sign) x 4 use sites; survey and choices sheets in different header-delimiter styles; settings product also with an entities sheet; element names with the 52 range-edge characters of the XML name productions (first / middle / last); 1-3 choice lists x invalid extra-column headers valued in any subset of the lists' for k, v in BOUND.items()}
+BOUND = {k: v + "; plus: " + '13 choice names x 6 list names with XML metacharacters x plain / translated / media lists x 3 select kinds; 7 legal namespace prefixes (hyphen, dot, digit, non-ASCII) x 6 declaration spellings (URIs containing an equals sign) x 4 use sites; survey and choices sheets in different header-delimiter styles; settings product also with an entities sheet; element names with the 52 range-edge characters of the XML name productions (first / middle / last); 1-3 choice lists x invalid extra-column headers valued in any subset of the lists' for k, v in BOUND.items()}
 
 FRAGS = ["<", ">", "&", '"', "'", "]]>", "&amp;", "&#60;", "&lt;", "<!--", "-->", "<![CDATA[",
          '<output value="x"/>', "</label>", "{", "}", "$", "a", "é", "\U0001F600", "שלום",
@@ -185,6 +185,28 @@ def gen_mixdelim(tier):
                             if fmt:
                                 c_["fmt"] = fmt
                             yield c_
+
+
+def gen_choicenames(tier):
+    """choice names and list names are free text: whatever is accepted lands in <name> / <itextId> / instance ids as text"""
+    cnames = ["r&d", "<18", 'a"b', "x'y", "a>b", "&amp;", "]]>", "1", "\u00e9", "a-b.c", "&", "<", "x&y<z"]
+    lnames = ["c", "q&a", "l<1", "x'y", "a>b", "\u00e9l"]
+    for ln in lnames:
+        for cn in cnames:
+            for lab in ("plain", "lang", "media"):
+                for sel in ("select_one", "select_multiple", "rank"):
+                    ch = [{"list_name": ln, "name": cn}, {"list_name": ln, "name": "ok1"}]
+                    for i, c in enumerate(ch):
+                        if lab == "plain":
+                            c["label"] = f"L{i}"
+                        elif lab == "lang":
+                            c["label::en"] = f"E{i}"
+                            c["label::fr"] = f"F{i}"
+                        else:
+                            c["label"] = f"L{i}"
+                            c["media::image"] = f"i{i}.png"
+                    yield {"wb": {"survey": [{"type": f"{sel} {ln}", "name": "s", "label": "S"}], "choices": ch},
+                           "meta": {"gen": "choicenames", "col": f"{lab}:{sel}"}, "id": "data"}
 
 
 def gen_formnames(tier):
@@ -394,7 +416,7 @@ def gen_containers(tier):
 SPACE = GenSpace(
     {"names": gen_names, "types": gen_types, "layouts": gen_layouts, "containers": gen_containers,
      "settings": gen_settings, "text": gen_text, "namechars": gen_namechars, "lists-cols": gen_lists_cols,
-     "nsprefix": gen_nsprefix, "mixdelim": gen_mixdelim, "formnames": gen_formnames},
+     "nsprefix": gen_nsprefix, "mixdelim": gen_mixdelim, "formnames": gen_formnames, "choicenames": gen_choicenames},
     chunk=250,
 )
 blocks = SPACE.blocks
